@@ -46,6 +46,7 @@ def check(prop, tier, seed):
         return [hit]
     rng = random.Random(seed * 31 + 7)
     res = {"suite": "changeset", "kind": "mc+rand", "params": params, "cache_hit": False}
+    res["rule"] = "every pair sequence explored by TLC on ChangeSet_MC mapped onto near and far-apart indices and several collect/extend/add segmentations, plus random long pair streams; one logged experiment per case checked by TLC against ChangeSet_L0"
     st, tl = C.model_check("ChangeSet_MC.tla", mc_cfg([0, 1, 2], params["maxpairs"]), "cs_" + tier, workers=4)
     res["mc"] = st
     res["tlc_scripts"] = len(tl)
